@@ -162,6 +162,7 @@ def release_mirror(prog: Program, rep: Report) -> None:
     dz = prog.role_func("release", "discretize")
     conds = [n_ for n_ in walk_no_nested(dz.node) if isinstance(n_, ast.If) and "time_reversal" in unparse(n_.test)]
     ok = False
+    tgt = None
     for c in conds:
         neg = isinstance(c.test, ast.UnaryOp) and isinstance(c.test.op, ast.Not)
         rev_body, fwd_body = (c.orelse, c.body) if neg else (c.body, c.orelse)
@@ -173,13 +174,21 @@ def release_mirror(prog: Program, rep: Report) -> None:
     rep.check(rule, dz.qual, "continuous release: tick spacing changes sign when reversed", ok, what_bad="the release frequency (a signed offset under T) must be negated in the reversed arm", what_ok="freq / -freq", loc=dz.loc())
     # ticks anchored at the first file time, run to the stop time with that signed spacing
     ar = [n_ for n_ in walk_no_nested(dz.node) if isinstance(n_, ast.Call) and unparse(n_.func) == "np.arange"]
-    ok = len(ar) == 1 and len(ar[0].args) == 3 and unparse(ar[0].args[0]) == "file_times[0]" and unparse(ar[0].args[1]) == "self.stop_time" and "freq" in unparse(ar[0].args[2])
+    from ..program import expand_locals
+
+    def names_in(e):
+        return {x.id for x in ast.walk(expand_locals(e, dz.node)) if isinstance(x, ast.Name)}
+
+    tgt_name = tgt if ok else None
+    ok = len(ar) == 1 and len(ar[0].args) == 3 and unparse(ar[0].args[0]) == "file_times[0]" and unparse(ar[0].args[1]) == "self.stop_time" and tgt_name is not None and tgt_name in names_in(ar[0].args[2])
     rep.check(rule, dz.qual, "ticks = arange(first file time, stop, signed frequency)", ok, what_bad=f"got {[short(a) for a in ar]}", what_ok="direction-symmetric", loc=dz.loc())
 
 
 def output_mirror(prog: Program, rep: Report) -> None:
     rule = "R10.2"
-    fi = prog.role_func("output", "__init__")
+    from ..program import normalized
+
+    fi = normalized(prog, prog.role_func("output", "__init__"))
     conds = [n_ for n_ in walk_no_nested(fi.node) if isinstance(n_, ast.If) and "time_reversal" in unparse(n_.test)]
     ok = False
     for c in conds:
